@@ -209,6 +209,20 @@ def rule_X3(P, rep):
             rep.ob("X3", "%s samples the futex word under the caller's lock, then releases it, then sleeps [%s]" %
                    (fn, seq.show(toks)[:160]), not why, "; ".join(why), loc="%s:%d" % (F.file, F.line), site="futex-sample/" + fn)
         rep.need(n >= 1, "%s: no returning path" % fn)
+    # wake-up side: the futex word is changed BEFORE the FUTEX_WAKE (a waiter woken by the syscall re-checks the word
+    # and goes back to sleep if it still holds the value it sampled; nobody wakes it again)
+    for fn in ("ABTD_futex_broadcast", "ABTD_futex_resume"):
+        Fs = P.fns(fn)
+        if not Fs or not Fs[0].calls("syscall"):
+            continue
+        F = Fs[0]
+        sc = [i for _b, i in F.calls("syscall")]
+        st = [i for _b, i in F.calls() if (F.nodes[i].get("fn") or "").startswith("ABTD_atomic_") and
+              "store" in F.nodes[i]["fn"] and F.nodes[i]["a"] and (F.field_of(F.nodes[i]["a"][0]) or ("", ""))[1] == "val"]
+        ok = bool(st) and all(any(cfg.dominates(F, s_, c) for s_ in st) for c in sc)
+        rep.ob("X3", "%s changes the futex word before it issues FUTEX_WAKE" % fn, ok,
+               "the wake-up syscall is not dominated by the store to the futex word: a woken waiter still reads the old value "
+               "and sleeps again", loc="%s:%d" % (F.file, F.line), site="futex-wake/" + fn)
 
 
 # functions that intentionally return with a different lockset than they were entered with: one
@@ -461,10 +475,16 @@ def x7_analyse(P, F, site, R, p):
                         g |= set(f2 for f2 in fields if G.key in _x7_touch(P, R, f2))
         return g
 
-    def is_p(e):
+    def is_p(e, depth=3):
         if rooted(e) == p:
             return True
         en = F.nodes[F.strip(e)]
+        if en.get("k") == "ref" and en.get("dk") == "var" and depth > 0:
+            # the handle travels through a temporary: `h = ABTI_x_get_handle(p); *out = h;`
+            d = canon.reaching_def(F, en["n"], e)
+            if isinstance(d, int):
+                return is_p(d, depth - 1)
+            return False
         return en.get("k") == "call" and (en.get("fn") or "").endswith("_get_handle") and en["a"] and \
             rooted(en["a"][0]) == p
 
@@ -685,6 +705,55 @@ def copy_root(F, var, at):
         var, at = dn["n"], d
         hops += 1
     return var
+
+
+# ---------------------------------------------------------------------------
+# X9: words that are updated by atomic read-modify-write are not overwritten
+
+X9_DOC = ("a field that some routine updates with an atomic read-modify-write (fetch_add/sub/or/and, CAS, exchange, test_and_set: "
+          "num_blocked, num_scheds, the request words, the LIFO top, lock words) is stored outright only where no concurrent "
+          "update can exist -- construction / initialisation / revival of the object, the lock-release primitives and the "
+          "single-threaded `_unsafe` list variants; a plain store anywhere else (a counter updated as load + store, a request "
+          "word cleared as a whole) loses the updates that race with it")
+
+_X9_INIT = re.compile(r"(_create(_|$)|_init(_|$)|_revive$|^thread_revive$|^ABTD_spinlock_(clear|release)$|_unsafe$|_reset$)")
+
+
+def rule_X9(P, rep, fields=None):
+    rmw, stores = {}, {}
+    for F in P.functions.values():
+        if F.file.endswith("abtd_atomic.h") or not F.blocks:
+            continue
+        for _b, i in F.calls():
+            fn = F.nodes[i].get("fn") or ""
+            if not fn.startswith("ABTD_atomic_") or not F.nodes[i]["a"]:
+                continue
+            fo = F.field_of(F.nodes[i]["a"][0])
+            if not fo:
+                continue
+            if re.search(r"fetch_|cas|exchange|test_and_set", fn):
+                rmw.setdefault(fo, []).append((F, i))
+            elif "store" in fn or "clear" in fn:
+                stores.setdefault(fo, []).append((F, i))
+        # plain (non-wrapper) stores to the same fields
+        for _b, i, lh, _rh in F.stores():
+            fo = F.field_of(lh)
+            if fo and F.nodes[F.strip(lh)].get("k") == "mem" and F.nodes[F.strip(lh)].get("f") == fo[1]:
+                stores.setdefault(fo, []).append((F, i))
+    n = 0
+    for fo in sorted(rmw):
+        if fields is not None and fo not in fields:
+            continue
+        for F, i in stores.get(fo, []):
+            n += 1
+            ok = bool(_X9_INIT.search(F.name))
+            rep.ob("X9", "%s stores %s::%s outright only while no concurrent update can exist" % (F.name, fo[0], fo[1]), ok,
+                   "%s::%s is updated with atomic read-modify-write operations elsewhere (%s); this plain store in %s overwrites "
+                   "updates that race with it" % (fo[0], fo[1], ", ".join(sorted(set(G.name for G, _ in rmw[fo]))[:4]), F.name),
+                   loc=F.loc(i), site="x9/%s.%s/%s" % (fo[0], fo[1], F.name))
+    if fields is not None:
+        rep.need(set(fields) <= set(rmw), "no atomic read-modify-write found on %s" % sorted(set(fields) - set(rmw)))
+    rep.need(n >= (len(fields) if fields is not None else 8), "only %d initialising stores of RMW-updated fields found" % n)
 
 
 def borrow(rep, P, rule_fn, label, only=None, **kw):
